@@ -53,14 +53,21 @@ def make_section(rng, kind, idx, pa, pb):
     s.old, oc = rand_path_shape(rng)
     while oc == 'git-quoted' and kind in ('binary_noindex', 'binary_cc', 'binary_bare', 'submodule_log'):
         s.old, oc = rand_path_shape(rng)
-    s.old = 's%d/' % idx + s.old
+    if oc == 'prefix-like' and rng.random() < 0.6:
+        # the top-level directory itself is called like one of git's prefixes (a/ b/ c/ i/ o/ w/)
+        s.old = s.old.replace('/', '/s%d_' % idx, 1)
+    else:
+        s.old = 's%d/' % idx + s.old
     s.new = s.old
     s.classes = {oc}
     if kind in ('renamed', 'renamed_changed', 'copied', 'binary_noindex'):
         s.new, nc = rand_path_shape(rng)
         while nc == 'git-quoted' and kind == 'binary_noindex':
             s.new, nc = rand_path_shape(rng)
-        s.new = 't%d/' % idx + s.new
+        if nc == 'prefix-like' and rng.random() < 0.6:
+            s.new = s.new.replace('/', '/t%d_' % idx, 1)
+        else:
+            s.new = 't%d/' % idx + s.new
         s.classes.add(nc)
     s.old_mode, s.new_mode = '100644', '100644'
     if kind in ('mode_only', 'mode_changed'):
